@@ -38,13 +38,14 @@ VARIABLES name,      \* path -> inode it names directly (0: no such entry); for 
           pathTab,   \* set of [path, wd]       (w.watches.path)
           panic,     \* a nil *watch was dereferenced
           uw,        \* ghost: the ideal watch set, path -> inode (first spelling wins; see Ideal.tla)
+          away,      \* inodes that were renamed to a name outside the universe (they stay alive whatever happens to A, B, H)
           steps
-vars == <<name, ltgt, alive, nextIno, marks, nextWd, kq, wdTab, pathTab, panic, uw, steps>>
+vars == <<name, ltgt, alive, nextIno, marks, nextWd, kq, wdTab, pathTab, panic, uw, away, steps>>
 
 Init == /\ name = [p \in Paths |-> CASE p = "A" -> 1 [] p = "H" -> 1 [] p = "B" -> 2 [] OTHER -> NoIno]
         /\ ltgt = "B" /\ alive = {1, 2} /\ nextIno = 3
         /\ marks = {} /\ nextWd = 1 /\ kq = <<>>
-        /\ wdTab = {} /\ pathTab = {} /\ panic = FALSE /\ uw = [p \in {} |-> 0] /\ steps = 0
+        /\ wdTab = {} /\ pathTab = {} /\ panic = FALSE /\ uw = [p \in {} |-> 0] /\ away = {} /\ steps = 0
 
 \* what a path resolves to (following the link), 0 if nothing
 Resolve(p) == IF p = "L" THEN name[ltgt] ELSE name[p]
@@ -85,7 +86,7 @@ Add(p) ==
         \* the ideal: same file already watched -> nothing; listed path naming another file -> its watch moves; else new watch
         /\ uw' = IF \E q \in DOMAIN uw : uw[q] = i THEN (IF p \in DOMAIN uw /\ uw[p] # i THEN Without(uw, {p}) ELSE uw)
                  ELSE [q \in (DOMAIN uw) \cup {p} |-> IF q = p THEN i ELSE uw[q]]
-  /\ UNCHANGED <<name, ltgt, alive, nextIno>>
+  /\ UNCHANGED <<name, ltgt, alive, nextIno, away>>
 
 \* Remove(p): removePath + inotify_rm_watch
 Remove(p) ==
@@ -101,18 +102,18 @@ Remove(p) ==
                /\ kq' = IF \E m \in marks : m.wd = wd THEN Append(kq, [wd |-> wd, kind |-> "ignored"]) ELSE kq
                /\ panic' = panic
                /\ uw' = Without(uw, {p})
-  /\ UNCHANGED <<name, ltgt, alive, nextIno, nextWd>>
+  /\ UNCHANGED <<name, ltgt, alive, nextIno, nextWd, away>>
 
 ---------------------------------------------------------------------------
 \* File system
 Retarget == /\ steps < MaxSteps /\ steps' = steps + 1
             /\ ltgt' = IF ltgt = "A" THEN "B" ELSE "A"
-            /\ UNCHANGED <<name, alive, nextIno, marks, nextWd, kq, wdTab, pathTab, panic, uw>>
+            /\ UNCHANGED <<name, alive, nextIno, marks, nextWd, kq, wdTab, pathTab, panic, uw, away>>
 \* unlink p (p in {A, B, H}): the inode dies with its last name -> DELETE_SELF, IGNORED, mark dropped
 Unlink(p) ==
   /\ steps < MaxSteps /\ p \in {"A", "B", "H"} /\ name[p] # NoIno /\ steps' = steps + 1
   /\ LET i == name[p]
-         last == \A q \in Paths \ {p} : name[q] # i
+         last == i \notin away /\ \A q \in Paths \ {p} : name[q] # i
          ws == WdOfIno(i) IN
      /\ name' = [name EXCEPT ![p] = NoIno]
      /\ IF last THEN /\ alive' = alive \ {i}
@@ -120,27 +121,48 @@ Unlink(p) ==
                      /\ kq' = IF ws = {} THEN kq ELSE LET w == CHOOSE w \in ws : TRUE IN kq \o <<[wd |-> w, kind |-> "delself"], [wd |-> w, kind |-> "ignored"]>>
                      /\ uw' = uw             \* the ideal follows when the record is processed (see Drain invariant)
                 ELSE UNCHANGED <<alive, marks, kq, uw>>
-  /\ UNCHANGED <<ltgt, nextIno, nextWd, wdTab, pathTab, panic>>
+  /\ UNCHANGED <<ltgt, nextIno, nextWd, wdTab, pathTab, panic, away>>
+\* mv p <somewhere unwatched> (p in {A, B}): the inode lives on under a name nobody watches -> MOVE_SELF for its mark
+MoveAway(p) ==
+  /\ steps < MaxSteps /\ p \in {"A", "B"} /\ name[p] # NoIno /\ steps' = steps + 1
+  /\ LET i == name[p]
+         ws == WdOfIno(i) IN
+     /\ name' = [name EXCEPT ![p] = NoIno]
+     /\ kq' = IF ws = {} THEN kq ELSE Append(kq, [wd |-> CHOOSE w \in ws : TRUE, kind |-> "moveself"])
+     /\ away' = away \cup {i}
+  /\ UNCHANGED <<ltgt, alive, nextIno, marks, nextWd, wdTab, pathTab, panic, uw>>
 \* create a new file under a free name
 Create(p) ==
   /\ steps < MaxSteps /\ p \in {"A", "B"} /\ name[p] = NoIno /\ nextIno <= MaxIno /\ steps' = steps + 1
   /\ name' = [name EXCEPT ![p] = nextIno] /\ alive' = alive \cup {nextIno} /\ nextIno' = nextIno + 1
-  /\ UNCHANGED <<ltgt, marks, nextWd, kq, wdTab, pathTab, panic, uw>>
+  /\ UNCHANGED <<ltgt, marks, nextWd, kq, wdTab, pathTab, panic, uw, away>>
 
 \* Reader: one record, under the lock (table part of handleEvent)
 Handle ==
   /\ kq # <<>> /\ ~panic
   /\ LET r == Head(kq)
          paths == WdPath(r.wd) IN
-     /\ kq' = Tail(kq)
-     /\ IF paths = {} THEN UNCHANGED <<wdTab, pathTab, uw>>                   \* watch == nil: skip
-        ELSE LET q == CHOOSE q \in paths : TRUE IN                           \* w.watches.remove(watch): delete(w.path, watch.path); delete(w.wd, watch.wd)
+     /\ IF paths = {} THEN UNCHANGED <<wdTab, pathTab, uw, marks>> /\ kq' = Tail(kq)          \* watch == nil: skip
+        ELSE LET q == CHOOSE q \in paths : TRUE IN
+             IF r.kind = "moveself"
+             THEN \* w.remove(watch.path): removePath looks the PATH up again, then inotify_rm_watch on what it found
+                  LET have == PathWd(q) IN
+                  IF have = {} THEN UNCHANGED <<wdTab, pathTab, uw, marks>> /\ kq' = Tail(kq)
+                  ELSE LET wd == CHOOSE w \in have : TRUE IN
+                       /\ pathTab' = {x \in pathTab : x.path # q}
+                       /\ wdTab' = {x \in wdTab : x.wd # wd}
+                       /\ marks' = {m \in marks : m.wd # wd}
+                       /\ kq' = IF \E m \in marks : m.wd = wd THEN Append(Tail(kq), [wd |-> wd, kind |-> "ignored"]) ELSE Tail(kq)
+                       \* the ideal: the watch on q ends, unless q was re-added for another file in the meantime
+                       /\ uw' = IF q \in DOMAIN uw /\ \E m \in marks : m.wd = r.wd /\ m.ino = uw[q] THEN Without(uw, {q}) ELSE uw
+             ELSE                                                            \* w.watches.remove(watch): delete(w.path, watch.path); delete(w.wd, watch.wd)
              /\ wdTab' = {x \in wdTab : x.wd # r.wd}
              /\ pathTab' = {x \in pathTab : x.path # q}
              /\ uw' = IF r.kind = "delself" /\ q \in DOMAIN uw /\ uw[q] \notin alive THEN Without(uw, {q}) ELSE uw
-  /\ UNCHANGED <<name, ltgt, alive, nextIno, marks, nextWd, panic, steps>>
+             /\ UNCHANGED marks /\ kq' = Tail(kq)
+  /\ UNCHANGED <<name, ltgt, alive, nextIno, nextWd, panic, away, steps>>
 
-Next == (\E p \in Paths : Add(p) \/ Remove(p) \/ Unlink(p) \/ Create(p)) \/ Retarget \/ Handle
+Next == (\E p \in Paths : Add(p) \/ Remove(p) \/ Unlink(p) \/ Create(p) \/ MoveAway(p)) \/ Retarget \/ Handle
 Spec == Init /\ [][Next]_vars
 
 ---------------------------------------------------------------------------
